@@ -226,7 +226,7 @@ def utf8ToUtf8Loop (xs : List Nat) (len : Nat) (out : List Nat) (ret : Int) : Co
     if r = 0 then .ok ret out
     else if 0 < r then
       let k := r.toNat
-      if h : k ≤ len ∧ 0 < k then
+      if _h : k ≤ len ∧ 0 < k then
         utf8ToUtf8Loop (xs.drop k) (len - k) (out ++ xs.take k) ret
       else .lenWrap
     else
@@ -237,7 +237,7 @@ def utf8ToUtf8Loop (xs : List Nat) (len : Nat) (out : List Nat) (ret : Int) : Co
         let ret := if n < 0 then -1 else ret
         let k := n.natAbs
         if k = 0 then .hang
-        else if h : k ≤ len then
+        else if _h : k ≤ len then
           utf8ToUtf8Loop (xs.drop k) (len - k) (out ++ unicodeToUtf8 4 (uc.getD 0)) ret
         else .lenWrap
 termination_by len
@@ -369,7 +369,7 @@ def appendLoop (fe te : Enc) (tm : Nat) (xs : List Nat) (len : Nat) (as : AStr) 
     else
       let ret := if n < 0 then -1 else ret
       let k := n.natAbs
-      if h : k ≤ len ∧ 0 < k then
+      if _h : k ≤ len ∧ 0 < k then
         match unparseGrow te ((len - k) * tm) (uc.getD 0) as with
         | .ok _ as' => appendLoop fe te tm (xs.drop k) (len - k) as' ret
         | r => r
@@ -398,7 +398,7 @@ def transcode (fe te : Enc) (xs : List Nat) (len : Nat) (out : List Nat) (ret : 
     else
       let ret := if n < 0 then -1 else ret
       let k := n.natAbs
-      if h : k ≤ len ∧ 0 < k then
+      if _h : k ≤ len ∧ 0 < k then
         transcode fe te (xs.drop k) (len - k) (out ++ unparse te 4 (uc.getD 0)) ret
       else .lenWrap
 termination_by len
@@ -437,7 +437,7 @@ def bestEffortFromUtf16Loop (be : Bool) (xs : List Nat) (bytes : Nat) (as : AStr
     else
       let ret := if n < 0 then -1 else ret
       let k := n.natAbs
-      if h : k ≤ bytes ∧ 0 < k then
+      if _h : k ≤ bytes ∧ 0 < k then
         let (c, ret) := if uc.getD 0 > 127 then (63, (-1 : Int)) else (uc.getD 0, ret)
         if as.cap ≤ as.data.length then .oobWrite as.data.length as.cap
         else bestEffortFromUtf16Loop be (xs.drop k) (bytes - k) { as with data := as.data ++ [c] } ret
